@@ -8,7 +8,7 @@
    The integer date functions are the exact-rational reading of the float expressions of dvb.go
    (15078.2 = 150782/10, 365.25 = 1461/4, 30.6001 = 306001/10000, int(..) = truncation toward zero).
 
-   PART 2 (module DvbFloat; binary64 via Coq's primitive floats, never extracted):
+   PART 2 (module DvbFloat; binary64 = SpecFloat 53/1024 of Coq's Floats library, pure Gallina, not extracted):
      the same expressions with float64 operations in exactly the order of dvb.go.  Proofs/DvbProofs.v
      shows by complete enumeration that PART 1 and PART 2 agree (all 65536 MJD words; all year/month
      arguments of the encoder for years -3000..12000; all whole-second durations below 100 h), so
@@ -150,39 +150,48 @@ Definition enc_dvb_time (unix : Z) : list witem :=
   wu16 (dvb_mjd_of_ymd y m d mod 65536) :: enc_dvb_duration_seconds (sod * ns_second).
 
 (* ================= PART 2: the float64 expressions of dvb.go ================= *)
-From Coq Require Import Floats Uint63.
+(* binary64 = Coq's SpecFloat with prec 53, emax 1024: the Gallina specification of the IEEE 754
+   operations with round-to-nearest-even (the one the standard library's FloatAxioms relate the
+   primitive floats to).  Pure Gallina: no primitive float, no axiom; evaluated by vm_compute. *)
+From Coq Require Import Floats.SpecFloat.
 
 Module DvbFloat.
 
-(* float64(z) for |z| < 2^53 (exact); all arguments below are far smaller *)
-Definition f_of_Z (z : Z) : float :=
-  if z <? 0 then PrimFloat.opp (PrimFloat.of_uint63 (Uint63.of_Z (- z)))
-  else PrimFloat.of_uint63 (Uint63.of_Z z).
+Definition prec : Z := 53.
+Definition emax : Z := 1024.
+Definition float64 : Type := spec_float.
+Definition fadd : float64 -> float64 -> float64 := SFadd prec emax.
+Definition fsub : float64 -> float64 -> float64 := SFsub prec emax.
+Definition fmul : float64 -> float64 -> float64 := SFmul prec emax.
+Definition fdiv : float64 -> float64 -> float64 := SFdiv prec emax.
+
+(* float64(z): z * 2^0 rounded to nearest even (exact for |z| < 2^53; all arguments below are smaller) *)
+Definition f_of_Z (z : Z) : float64 := binary_normalize prec emax z 0 false.
 
 (* int(f): truncation toward zero of a finite float (NaN / infinities, where Go's result is
    implementation-defined, are never reached: given as 0) *)
-Definition trunc (f : float) : Z :=
-  match Prim2SF f with
+Definition trunc (f : float64) : Z :=
+  match f with
   | S754_finite s m e => let a := Z.shiftl (Z.pos m) e in if s then - a else a
   | _ => 0
   end.
 
 (* decimal literals: the correctly rounded quotient of two exactly representable integers is the
    correctly rounded literal (bit patterns checked in DvbProofs against Go's math.Float64bits) *)
-Definition c_15078_2 : float := PrimFloat.div (f_of_Z 150782) (f_of_Z 10).
-Definition c_14956_1 : float := PrimFloat.div (f_of_Z 149561) (f_of_Z 10).
-Definition c_30_6001 : float := PrimFloat.div (f_of_Z 306001) (f_of_Z 10000).
-Definition c_365_25 : float := PrimFloat.div (f_of_Z 1461) (f_of_Z 4).
-Definition c_14956 : float := f_of_Z 14956.
+Definition c_15078_2 : float64 := fdiv (f_of_Z 150782) (f_of_Z 10).
+Definition c_14956_1 : float64 := fdiv (f_of_Z 149561) (f_of_Z 10).
+Definition c_30_6001 : float64 := fdiv (f_of_Z 306001) (f_of_Z 10000).
+Definition c_365_25 : float64 := fdiv (f_of_Z 1461) (f_of_Z 4).
+Definition c_14956 : float64 := f_of_Z 14956.
 
 (* parseDVBTime, lines "var yt = ..." to "var m = ...": (y, m, d) handed to time.Date *)
 Definition mjd_to_ymd_float (mjd : Z) : Z * Z * Z :=
   let fm := f_of_Z mjd in
-  let yt := trunc (PrimFloat.div (PrimFloat.sub fm c_15078_2) c_365_25) in
-  let yd := f_of_Z (trunc (PrimFloat.mul (f_of_Z yt) c_365_25)) in
-  let mt := trunc (PrimFloat.div (PrimFloat.sub (PrimFloat.sub fm c_14956_1) yd) c_30_6001) in
-  let md := f_of_Z (trunc (PrimFloat.mul (f_of_Z mt) c_30_6001)) in
-  let d := trunc (PrimFloat.sub (PrimFloat.sub (PrimFloat.sub fm c_14956) yd) md) in
+  let yt := trunc (fdiv (fsub fm c_15078_2) c_365_25) in
+  let yd := f_of_Z (trunc (fmul (f_of_Z yt) c_365_25)) in
+  let mt := trunc (fdiv (fsub (fsub fm c_14956_1) yd) c_30_6001) in
+  let md := f_of_Z (trunc (fmul (f_of_Z mt) c_30_6001)) in
+  let d := trunc (fsub (fsub (fsub fm c_14956) yd) md) in
   let k := if orb (mt =? 14) (mt =? 15) then 1 else 0 in
   (1900 + yt + k, mt - 1 - k * 12, d).
 
@@ -190,8 +199,8 @@ Definition dvb_date_unix_float (mjd : Z) : Z :=
   let '(y, m, d) := mjd_to_ymd_float mjd in 86400 * go_date_days y m d.
 
 (* the two float terms of writeDVBTime's mjd expression *)
-Definition year_days_float (n : Z) : Z := trunc (PrimFloat.mul (f_of_Z n) c_365_25).
-Definition month_days_float (n : Z) : Z := trunc (PrimFloat.mul (f_of_Z n) c_30_6001).
+Definition year_days_float (n : Z) : Z := trunc (fmul (f_of_Z n) c_365_25).
+Definition month_days_float (n : Z) : Z := trunc (fmul (f_of_Z n) c_30_6001).
 
 Definition ymd_to_mjd_float (y m d : Z) : Z :=
   let year := y - 1900 in
@@ -199,8 +208,8 @@ Definition ymd_to_mjd_float (y m d : Z) : Z :=
   14956 + d + year_days_float (year - l) + month_days_float (m + 1 + l * 12).
 
 (* time.Duration.Hours / Minutes / Seconds: float64(d / unit) + float64(d % unit) / unit *)
-Definition dur_split_float (ns unit : Z) : float :=
-  PrimFloat.add (f_of_Z (Z.quot ns unit)) (PrimFloat.div (f_of_Z (Z.rem ns unit)) (f_of_Z unit)).
+Definition dur_split_float (ns unit : Z) : float64 :=
+  fadd (f_of_Z (Z.quot ns unit)) (fdiv (f_of_Z (Z.rem ns unit)) (f_of_Z unit)).
 Definition dur_hours_float (ns : Z) : Z := trunc (dur_split_float ns ns_hour) mod 256.
 Definition dur_minutes_float (ns : Z) : Z := Z.rem (trunc (dur_split_float ns ns_minute)) 60 mod 256.
 Definition dur_seconds_float (ns : Z) : Z := Z.rem (trunc (dur_split_float ns ns_second)) 60 mod 256.
